@@ -37,6 +37,13 @@ CLAIMS = {
    text='Theorems C09_static, C09_rank, C09_layout (with C09_preserveLeft/Right): for source patterns and slice-type lists of every length the metafunctions (StaticExtentFromRange/StridedRange, the fold expressions of preserve_layout_left/right_mapping) compute exactly the slicing rule: rank = number of non-index slices, static extents and values, layout kept iff full* (full|pair)? index* (mirror image for layout_right). Tied by decltype probes of submdspan_mapping, submdspan_extents and submdspan (element type, offset_policy, index type carried over) over all tuples of 14 slice types for rank 1-2, 500 sampled (thorough: all) rank-3 tuples and sampled rank 4-6, compared with the model and with the rule.',
    tech='Lean 4 proof (Impl = Spec by induction on the slice list) + compile-time type probes',
    note='Probes use index type int plus four others on a subset; quick tier compiles with g++ -std=c++23 only, thorough adds clang and C++17/20.'),
+ 'C06': dict(ref='7/C06', partial=None,
+   text='Theorems dynSlot_lt, C06_fromDyn, C06_fromAll, C06_ctorM_all/dyn, C06_conv(M), C06_rank, C06_static, C06_eq_iff: for every pattern of every rank (all 2^rank patterns), a dynamic position always finds its slot inside the value array, extent(r) is the static extent or the value supplied for that position on every construction path, conversion gathers the source extents, and == holds exactly for equal rank and equal extents across index types (comparison in the common type is exact on representable values). Tied by exact transcripts of 6 construction paths x all patterns (rank<=3) x 8 index types x 3 source element types, and 420 ordered type pairs for conversion and comparison (==, != and the reversed ==).',
+   tech='Lean 4 proof (induction on the pattern) + exact-transcript correspondence',
+   note='rank-4 patterns only for two index types; std::span paths need C++20.'),
+ 'C20': dict(ref='7/C20', partial=None,
+   text='Theorems C20_left, C20_right, C20_canonical_passes: the stride walk aborts exactly when the stride list differs from the canonical strides of the target layout, for every rank; canonical strides never abort. Tied by running each conversion in a child process of an assertion-enabled build and of an NDEBUG build (24 index-type pairs x rank 0-4; canonical, one-off, permuted, other-layout stride tuples) and comparing the exit status with the machine-layer walk (walkLeftM/walkRightM, comparison in the common type) and with the statement.',
+   tech='Lean 4 proof + child-process correspondence (SIGABRT observed)', note='CUDA/HIP configurations do not exist here.'),
 }
 NOT_YET = 'check not built yet (work in progress; DESIGN.md section 7 describes the planned proof and correspondence)'
 
